@@ -582,6 +582,7 @@ cpc_sketch_alloc<A> cpc_sketch_alloc<A>::deserialize(std::istream& is, uint64_t 
         + std::to_string(compute_seed_hash(seed)));
   }
   check_lg_k(lg_k);
+  if (num_coupons == 0) kxp = static_cast<double>(1 << lg_k); // the image of an empty sketch carries no HIP fields
   uncompressed_state<A> uncompressed(allocator);
   get_compressor<A>().uncompress(compressed, uncompressed, lg_k, num_coupons);
   if (!is.good())
@@ -677,6 +678,7 @@ cpc_sketch_alloc<A> cpc_sketch_alloc<A>::deserialize(const void* bytes, size_t s
         + std::to_string(compute_seed_hash(seed)));
   }
   check_lg_k(lg_k);
+  if (num_coupons == 0) kxp = static_cast<double>(1 << lg_k); // the image of an empty sketch carries no HIP fields
   uncompressed_state<A> uncompressed(allocator);
   get_compressor<A>().uncompress(compressed, uncompressed, lg_k, num_coupons);
   return cpc_sketch_alloc(lg_k, num_coupons, first_interesting_column, std::move(uncompressed.table),
